@@ -50,8 +50,18 @@ pub fn parse_uint(i: &[u8]) -> nom::IResult<&[u8], u64> {
     Ok((i, i.iter().fold(0, |res, &byte| (res << 8) | byte as u64)))
 }
 
+/// Maximum nesting depth of constructed values which the parser will follow.
+///
+/// The parser is recursive, so the depth of a hostile input must be bounded lest it exhausts the stack.
+/// No LDAP protocol element comes near this limit.
+pub const MAX_NESTING: usize = 100;
+
 /// Parse raw BER data into a serializable structure.
 pub fn parse_tag(i: &[u8]) -> nom::IResult<&[u8], StructureTag> {
+    parse_tag_nested(i, 0)
+}
+
+fn parse_tag_nested(i: &[u8], depth: usize) -> nom::IResult<&[u8], StructureTag> {
     let (mut i, ((class, structure, id), len)) = tuple((parse_type_header, parse_length))(i)?;
 
     let pl: PL = match structure {
@@ -64,12 +74,18 @@ pub fn parse_tag(i: &[u8]) -> nom::IResult<&[u8], StructureTag> {
         TagStructure::Constructed => {
             let (j, mut content) = take(len)(i)?;
             i = j;
+            if depth >= MAX_NESTING {
+                return Err(nom::Err::Failure(Error::from_error_kind(
+                    content,
+                    ErrorKind::TooLarge,
+                )));
+            }
 
             let mut tv: Vec<StructureTag> = Vec::new();
             while content.input_len() > 0 {
                 // All the announced content is here, so an element which runs past its end is malformed,
                 // not incomplete: asking for more input would stall a streaming reader forever.
-                let (j, sub) = match parse_tag(content) {
+                let (j, sub) = match parse_tag_nested(content, depth + 1) {
                     Err(nom::Err::Incomplete(_)) => {
                         return Err(nom::Err::Error(Error::from_error_kind(
                             content,
